@@ -534,6 +534,52 @@ def extra(uni, tier, seed):
                      "reported inputs", kind="bounded run-time contract: 7 "
                      "regions on the serial evaluator", count=n_ok,
                      bounded=True))
+    out += access_chain(uni)
+    return out
+
+
+def access_chain(uni):
+    """the inputs and outputs are computed from the accesses that
+    Assignment.reference_accesses collects (with the caller's options): that
+    contract (of C11) is part of the chain; its VCs are generated from the
+    current source and discharged here as well"""
+    import hashlib
+    from pyvc.runner import Extra
+    from pyvc.extract import Repo
+    from pyvc.interp import Universe
+    from pyvc.verify import verify_function
+    from pyvc.smt import _solve
+    from contracts import C11
+    u2 = Universe(Repo())
+    u2.kf_classes = {}
+    c = [c for c in C11.build(u2)
+         if c.name.endswith("Assignment.reference_accesses")][0]
+    rep = verify_function(u2, c)
+    out, n_ok = [], 0
+    for ob in rep.obligations:
+        text = ob.smt2()
+        _, r, _, _ = _solve((hashlib.sha256(text.encode()).hexdigest(),
+                             text, 20000, True))
+        if r == "unsat":
+            n_ok += 1
+            continue
+        try:
+            rp = C11.replay(ob.name, ob, None, u2) or {"confirmed": False}
+        except Exception as err:       # noqa
+            rp = {"confirmed": False, "replay_error": repr(err)}
+        rp.update({"obligation": ob.name, "solver": r})
+        out.append(Extra(
+            f"C11:{ob.name}", False, f"solver: {r}",
+            kind="VC of Assignment.reference_accesses (contract of C11)",
+            undecided=(r != "sat" and not rp.get("confirmed")), replay=rp))
+    for k, v in u2.repo.used.items():
+        uni.repo.used[k] = v
+    out.append(Extra(
+        "C11:Assignment.reference_accesses#all",
+        bool(out) or (n_ok > 0 and not rep.unsupported),
+        f"{n_ok} obligations discharged",
+        kind="VCs of the Assignment.reference_accesses contract (shared "
+             "with C11)", count=n_ok, undecided=bool(rep.unsupported)))
     return out
 
 
